@@ -74,7 +74,11 @@ func (pe *parityEval) evalInt(v ssa.Value, env map[ssa.Value]int64, lens map[ssa
 			if n, ok := pe.lenOfValue(l, env, lens, d+1); ok {
 				return n, true
 			}
+			return 0, false
 		}
+		return pe.evalPredicate(x, env, lens, d)
+	case *ssa.Phi:
+		// only meaningful inside evalPredicate, which binds the phi before the value is asked for
 		return 0, false
 	case *ssa.UnOp:
 		if x.Op == token.MUL {
@@ -152,6 +156,85 @@ func (pe *parityEval) evalInt(v ssa.Value, env map[ssa.Value]int64, lens map[ssa
 			return bi(a > b)
 		case token.GEQ:
 			return bi(a >= b)
+		}
+	}
+	return 0, false
+}
+
+// evalPredicate interprets a call to a small loop-free function of the module that computes an
+// integer or boolean from integers, lengths and CPU flags (useAVX512(n), kernelInBounds(...)):
+// its blocks are walked with the arguments bound to the parameters; unknown branch conditions make
+// the result unknown.
+func (pe *parityEval) evalPredicate(call *ssa.Call, env map[ssa.Value]int64, lens map[ssa.Value]int64, d int) (int64, bool) {
+	callee := call.Call.StaticCallee()
+	if callee == nil || callee.Blocks == nil || len(callee.Blocks) > 12 || d > 12 || !strings.HasPrefix(fnPkgPath(callee), modPath) {
+		return 0, false
+	}
+	if callee.Signature.Results().Len() != 1 {
+		return 0, false
+	}
+	cenv := map[ssa.Value]int64{}
+	clens := map[ssa.Value]int64{}
+	for i, a := range call.Call.Args {
+		if i >= len(callee.Params) {
+			break
+		}
+		if isSliceType(a.Type()) {
+			if n, ok := pe.lenOfValue(a, env, lens, d+1); ok {
+				clens[callee.Params[i]] = n
+			}
+		} else if k, ok := pe.evalInt(a, env, lens, d+1); ok {
+			cenv[callee.Params[i]] = k
+		}
+	}
+	b := callee.Blocks[0]
+	var prev *ssa.BasicBlock
+	for steps := 0; steps < 32; steps++ {
+		for _, in := range b.Instrs {
+			switch x := in.(type) {
+			case *ssa.Phi:
+				if prev == nil {
+					return 0, false
+				}
+				for i, p := range b.Preds {
+					if p == prev {
+						if k, ok := pe.evalInt(x.Edges[i], cenv, clens, d+1); ok {
+							cenv[x] = k
+						}
+					}
+				}
+			case *ssa.Panic:
+				return 0, false
+			case *ssa.Return:
+				if len(x.Results) != 1 {
+					return 0, false
+				}
+				return pe.evalInt(x.Results[0], cenv, clens, d+1)
+			case *ssa.If:
+				k, ok := pe.evalInt(x.Cond, cenv, clens, d+1)
+				if !ok {
+					return 0, false
+				}
+				prev = b
+				if k != 0 {
+					b = b.Succs[0]
+				} else {
+					b = b.Succs[1]
+				}
+			case *ssa.Jump:
+				prev = b
+				b = b.Succs[0]
+			case *ssa.Call, *ssa.Store, *ssa.MapUpdate, *ssa.Send, *ssa.Go, *ssa.Defer:
+				if c, isCall := in.(*ssa.Call); isCall {
+					if lenOf(c) != nil {
+						continue
+					}
+					if _, ok := pe.evalPredicate(c, cenv, clens, d+1); ok {
+						continue
+					}
+				}
+				return 0, false
+			}
 		}
 	}
 	return 0, false
